@@ -308,8 +308,13 @@ func c06Spellings(w *mc.Worker, totals []*big.Int) {
 				return
 			}
 			w.Owned()
-			pr, ok := mustParse(w, text)
-			if !ok {
+			var pr parsedT
+			pmsg, where := guard(func() { pr = numscriptParse(text) })
+			if pmsg != "" || len(pr.GetParsingErrors()) != 0 {
+				w.Inner(0, func(in *mc.Explorer) {
+					w.Eval(text, true, "spelling:unparsable")
+					w.Violation("C06.spelling-rejected:parse@"+where, "a script with a valid portion spelling did not parse (panic: "+pmsg+")", len(text), Case{Script: text})
+				})
 				return
 			}
 			p := ref.PortionOfText(txt)
